@@ -84,6 +84,25 @@ func init() {
 			for _, p := range pr.Peers {
 				p.AutoAck = false
 			}
+			// a peer that is asked nothing is connected as well and goes away at some point (fault
+			// conn.drop): the callbacks waiting for the others' answers are none of its business
+			if w.T.Bool(1, 2, "bystander") {
+				px := w.NewPeer("PX", "d:_i:PX", pr.L)
+				stdPeerTree(px, false)
+				px.Connect()
+				w.EnableFaults("conn.drop")
+				w.Go("bystander-leaves", func() {
+					px.AwaitDiscovery()
+					for k := w.T.Choose(40, "bystander-delay"); k > 0; k-- {
+						w.Yield("bystander-delay")
+					}
+					w.Logf("fault conn.drop PX (bystander)")
+					if w.FaultsOn && pr.L.Disconnect("PX") {
+						w.Fault("conn.drop")
+						w.Probe("c14-bystander-removed")
+					}
+				})
+			}
 			// the local client features (Measurement client, LoadControl client on each entity)
 			var locals []*LFeat
 			for _, c := range pr.Clients {
